@@ -31,7 +31,7 @@ func runC14(c *Ctx) {
 	p := c.Progs["mod"]
 	c.Rule("C14.G", "banner gating by partial evaluation of the predicates", 13)
 	c.Rule("C14.X", "1xx interim statuses do not latch the banner writer (= C03.X)", 2)
-	c.Rule("C14.T", "predicate truth tables and constants", 11)
+	c.Rule("C14.T", "predicate truth tables and constants", 15)
 	// the URL the frame embeds is the one the client requested: the banner keeps the request's
 	// *url.URL and renders it when the backend's header arrives, so nothing in the agent's
 	// handler chain may rewrite that URL in place (= C02.W)
@@ -610,6 +610,46 @@ func runC14(c *Ctx) {
 				name = k + "=" + v
 			}
 			c.Check("C14.T", "isAlreadyFramed:["+name+",no-referer]", p, f.Pos(), badRet == "" && nret > 0, "with "+name+" and no Referer every reachable return is true", "with "+name+" and no Referer header isAlreadyFramed can return something other than true (return at "+badRet+"): a framed navigation that sends no Referer gets another banner frame around the frame")
+		}
+		// … while fetch metadata that does not say "iframe" decides nothing: a navigation inside a
+		// <frame>, <embed> or <object> (Sec-Fetch-Dest: frame/embed/object, mode navigate) whose
+		// Referer is the page itself is still framed, so "not framed" is never answered before the
+		// Referer was looked at
+		for _, dest := range []string{"frame", "embed", "object", "document"} {
+			hdr := map[string]string{"Sec-Fetch-Dest": dest, "Sec-Fetch-Mode": "navigate"}
+			env := func(v ssa.Value) (constant.Value, bool) {
+				if g := CallResult(v, 0, "(net/http.Header).Get"); g != nil {
+					if k, isC := ConstString(PArgs(&g.Call)[1]); isC {
+						if val, has := hdr[canonicalHeaderKey(k)]; has {
+							return constant.MakeString(val), true
+						}
+					}
+				}
+				return nil, false
+			}
+			readsReferer := func(i ssa.Instruction) bool {
+				cc := CallOf(i)
+				if cc == nil {
+					return false
+				}
+				switch CalleeName(cc) {
+				case "(*net/http.Request).Referer":
+					return true
+				case "(net/http.Header).Get", "(net/http.Header).Values":
+					k, isC := ConstString(PArgs(cc)[1])
+					return isC && (strings.EqualFold(k, "Referer") || strings.EqualFold(k, "Referrer"))
+				}
+				return false
+			}
+			hit, _ := (&Walk{Target: func(i ssa.Instruction) bool {
+				r, isR := i.(*ssa.Return)
+				if !isR || i.Parent() != f {
+					return false
+				}
+				cv, okv := Eval(ReturnValue(r, 0), env)
+				return okv && cv.Kind() == constant.Bool && !constant.BoolVal(cv)
+			}, Avoid: readsReferer, Edge: EdgeUnder(env), Ctx: f}).FromBlock(f.Blocks[0])
+			c.Check("C14.T", "isAlreadyFramed:[Sec-Fetch-Dest="+dest+",navigate]:referer-still-consulted", p, f.Pos(), hit == nil, "with Sec-Fetch-Dest: "+dest+" the answer 'not framed' is only given after the Referer was examined", "with Sec-Fetch-Dest: "+dest+" and Sec-Fetch-Mode: navigate isAlreadyFramed answers false without looking at the Referer (return at "+posStr(p, hit)+"): a page that is already inside the banner's frame and navigates to itself gets a second banner frame")
 		}
 		c.Check("C14.T", "isAlreadyFramed:referer-path", p, f.Pos(), okRef, "the referer only counts when its path equals the request's", "the referer test no longer compares the paths")
 	}
